@@ -18,6 +18,8 @@ def decDir : String → Option Dir
   | "cdr" => some .cdr
   | "vec" => some .vec
   | "quote" => some .quote
+  | "cdr-of-pairs" => some .cdrPairs
+  | "cdr-dotted" => some .cdrDotted
   | _ => none
 
 def decFn : String → Option Fn
